@@ -125,7 +125,7 @@ def eval_extra(args):
 
 def run(tier, seed, open_findings):
     rng = random.Random(seed)
-    n = 150 if tier == 'thorough' else 40
+    n = 1200 if tier == 'thorough' else 40
     workdir = tempfile.mkdtemp(prefix='verif_c04_')
     try:
         open(os.path.join(workdir, 's.xsd'), 'w').write(docgen.SCHEMA)
